@@ -15,8 +15,15 @@ Open Scope Z_scope.
 Theorem C02_tables :
   is_adverb_set = is_adverb_model /\ adverb_arity = adverb_arity_model /\ adverb_fn = adverb_fn_model /\
   over_shortcuts = over_table_model /\ scan_shortcuts = scan_table_model /\
-  zero_divisor_guard = zero_divisor_guard_model.
-Proof. exact (conj eq_refl (conj eq_refl (conj eq_refl (conj eq_refl (conj eq_refl eq_refl))))). Qed.
+  zero_divisor_guard = zero_divisor_guard_model /\
+  (* the expression compiler: which operators it compiles under / and \, and the NumPy call each becomes
+     (np.maximum.reduce is a ufunc reduce; np.max would not be) *)
+  redscan_ops = redscan_ops_model /\ compiled_reduce_tbl = compiled_reduce_model /\ compiled_scan_tbl = compiled_scan_model /\
+  compiled_reduce_tbl_template = compiled_template_model /\ compiled_scan_tbl_template = compiled_template_model /\
+  (* the loop tests of While / Scan-While: Python's truth of the evaluated predicate *)
+  while_test = while_test_model /\ scan_while_test = while_test_model.
+Proof. exact (conj eq_refl (conj eq_refl (conj eq_refl (conj eq_refl (conj eq_refl (conj eq_refl
+             (conj eq_refl (conj eq_refl (conj eq_refl (conj eq_refl (conj eq_refl (conj eq_refl eq_refl)))))))))))). Qed.
 Print Assumptions C02_tables.
 
 (* f'a = f(a1),...,f(aN); atom f(a); [] and "" unchanged; dictionary: f of every [key value] tuple.
@@ -159,6 +166,22 @@ Proof. exact (fun S => eq_ind _ (fun t => forall a s, is_atom a = false -> div_d
               (scan_shortcut_divide S) _ (eq_refl : scan_table_model = scan_shortcuts)). Qed.
 Print Assumptions C02_scan_shortcut_divide.
 
+(* ---- The expression compiler's route.  An Over / Scan-Over of an operator of _REDUCE_SCAN_OPS whose operand is a
+   variable or a function argument (|/m, {|/x}(m)) is run as the NumPy call of the regenerated text table
+   whenever the value is admitted (a number or a non-empty numeric array of any rank); whatever it returns is
+   the expansion.  The interpreter's own shortcut (the C02_over_shortcut theorems) covers the remaining operands. *)
+Theorem C02_compiled_over : forall S op u (a : val) (s : S) r,
+  In (op, u) [("+"%string, n_add); ("*"%string, n_mul); ("|"%string, n_max); ("&"%string, n_min)] ->
+  compiled_over redscan_ops compiled_reduce_tbl (Some op) a = Some r -> (r, s) = s_over (pure2 (ew2 u)) a s.
+Proof. exact (fun S => compiled_over_gen S redscan_ops compiled_reduce_tbl eq_refl eq_refl). Qed.
+Print Assumptions C02_compiled_over.
+
+Theorem C02_compiled_scan : forall S op u (a : val) (s : S) r,
+  In (op, u) [("+"%string, n_add); ("*"%string, n_mul)] ->
+  compiled_scan redscan_ops compiled_scan_tbl (Some op) a = Some r -> (r, s) = s_scan (pure2 (ew2 u)) a s.
+Proof. exact (fun S => compiled_scan_gen S redscan_ops compiled_scan_tbl eq_refl eq_refl). Qed.
+Print Assumptions C02_compiled_scan.
+
 (* The same two facts for ANY ufunc whose cast does not change its results (uf_ok), e.g. any operation
    over an exact field with no cast: reduce = left fold, accumulate = running fold. *)
 Theorem C02_np_reduce_any_ufunc : forall uf, uf_ok uf -> forall x y xs,
@@ -243,6 +266,22 @@ Theorem C02_scan_while_terminates : forall (p g : val -> res val) (x : nat -> va
 Proof. exact scan_while_terminates. Qed.
 Print Assumptions C02_scan_while_terminates.
 
+(* The truth test of While / Scan-While is Python's truth of the predicate's answer (`truthy`); it is Klong's truth
+   (0, 0.0, [] and "" false, everything else true) for every answer that is not a list or an empty dictionary. *)
+Theorem C02_while_truth_is_klong_truth : forall t, while_truth_known t = false -> truthy t = Ok (ktruth t).
+Proof. exact truthy_is_ktruth. Qed.
+Print Assumptions C02_while_truth_is_klong_truth.
+
+Definition C02_while_truth_full_statement : Prop := forall t, truthy t = Ok (ktruth t).
+(* KNOWN FINDING C02-while-list-truth: a test that answers a list (true in Klong unless empty) raises or is
+   taken as its only element's truth, and an empty dictionary counts as false *)
+Theorem C02_while_truth_refuted :
+  (exists t, ktruth t = true /\ truthy t = Err E_TYPE) /\ (exists t, ktruth t = false /\ truthy t = Err E_TYPE) /\
+  (exists t, ktruth t = true /\ truthy t = Ok false).
+Proof. exact (conj (ex_intro _ (VList [VInt 1; VInt 2]) (conj eq_refl eq_refl))
+             (conj (ex_intro _ (VList []) (conj eq_refl eq_refl))
+                   (ex_intro _ (VList [VInt 0]) (conj eq_refl eq_refl)))). Qed.
+
 (* Iterate with a negative count never ends (outside the documented domain): every fuel is exhausted *)
 Theorem C02_iterate_negative_refuted_termination :
   m_iterate 50 (pure1 (fun v => Ok v)) (VInt (-1)) (VInt 0) tt = (OutOfFuel, tt).
@@ -261,6 +300,8 @@ Example C02_shortcut_example :
   m_over over_shortcuts (Some "%"%string) (pure2 klong_div) (vints [1; 0]) tt = (Err E_UNDEF, tt) /\
   div_dom (vints [1; 0]) = true /\
   minmax_dom (vints [3; 1; 2]) = true /\
+  compiled_over redscan_ops compiled_reduce_tbl (Some "|"%string) (VList [vints [1; 9]; vints [7; 2]]) = Some (Ok (vints [7; 9])) /\
+  compiled_scan redscan_ops compiled_scan_tbl (Some "+"%string) (VInt 5) = None /\
   m_converge 10 (logged1 (fun v => match v with VInt z => Ok (VInt (z / 2)) | _ => Err 1 end)) (VInt 5) []
     = (Ok (VInt 0), [Call1 (VInt 5); Call1 (VInt 2); Call1 (VInt 1); Call1 (VInt 0)]).
 Proof. vm_compute. repeat split; reflexivity. Qed.
